@@ -217,7 +217,8 @@ Proof.
   remember (sort_desc org_lt (map (adjust_one o (sp_age s)
              (if Z.eqb (sp_age s - sp_lastimp s + 1 - o_dropoff o) 0 then 1 else sp_age s - sp_lastimp s + 1 - o_dropoff o)
              (zlen orgs)) orgs)) as sorted eqn:Es.
-  destruct sorted as [|top r]; [discriminate|]. injection H as <- <-.
+  destruct sorted as [|top r]; [discriminate|].
+  destruct (Z.ltb (f_trunc_Z _) 0); [discriminate|]. injection H as <- <-.
   set (D := fun y : organism => exists x, hget h (o_key y) = Ok x /\ proj_gss y = proj_gss x).
   assert (HD : forall y, In y (top :: r) -> D y).
   { intros y Hy. rewrite Es in Hy. apply (Permutation_in _ (sort_desc_perm _ _)) in Hy.
